@@ -326,8 +326,14 @@ pub fn get_best_move(
                 //alpha raised, remember this line as the pv
                 alpha = evaluation;
                 best_move = Some(mov.clone());
-                tx.send(mov.clone()).unwrap();
                 search_info.set_principle_variation();
+                // the move and its info line go out together while the receiver is still listening;
+                // once it has answered the GUI (it closes the channel, holding the same lock) this
+                // search is over: an info line must never follow the bestmove of its go
+                let _stdout = std::io::stdout().lock();
+                if tx.send(mov.clone()).is_err() {
+                    return;
+                }
                 send_search_info(&search_info, cur_depth, evaluation, start);
             }
         }
